@@ -180,12 +180,17 @@ def indexErr (o : Out) (msg : Out := .exc "IndexError") : Out :=
   | .tup [_, v] => v
   | o => o
 
-/-- `append` / `appendleft`: push, then trim from the other end, in one transaction -/
+/-- `append` / `appendleft`: push, then trim from the other end, in one transaction; a push that
+raises leaves the `with transact()` block through the exception: the block is rolled back and the
+exception propagates -/
 def append (d : Deque) (E : Externals) (now : Int) (v : PyVal) (left : Bool) : Deque × Out :=
   let c := d.cache.tbegin
-  let (c, _) := c.push E now v none (!left) none false .null
-  let c := if d.tooLong c then (c.pull E now none (!left) false false).1 else c
-  ({ d with cache := c.tend }, .none)
+  let (c, o) := c.push E now v none (!left) none false .null
+  match o with
+  | .exc e => ({ d with cache := c.traise 1 }, .exc e)
+  | _ =>
+    let c := if d.tooLong c then (c.pull E now none (!left) false false).1 else c
+    ({ d with cache := c.tend }, .none)
 
 /-- `pop` / `popleft` -/
 def pop (d : Deque) (E : Externals) (now : Int) (left : Bool) : Deque × Out :=
